@@ -22,6 +22,11 @@ package comp
 //   pseq m d1 d2 …  documents d1, d2, … (SEa SEr R<n> A<n> E S) decoded one after the other into ONE value,
 //                   m = direct | outer (through a LoadControlLimitDataType decoded into repeatedly)
 //   reuse k v…      one receiver used repeatedly (k = sn k d | dur z | art unixsec)
+//   ttext / tread / tlib   instants at the level of the text (Spine.TimeText): see numeric_time_test.go
+//
+// The columns `decimals` and `product` of a scaled-number observation are evaluated from the expression trees the
+// translator generator `scaledexpr` recovered from the source of the tree under test (numScaledSrc); the single-value
+// phases are drawn from the seeded generator first and then run as op lists on the workers (numRunOpsParallel).
 
 import (
 	"encoding/json"
@@ -29,6 +34,8 @@ import (
 	"math"
 	"math/big"
 	"math/rand"
+	"os"
+	"path/filepath"
 	"regexp"
 	"runtime"
 	"sort"
@@ -73,10 +80,52 @@ func numDecimals(v float64) int {
 
 const numNil = math.MinInt64 // a nil Number / Scale (never on the pinned code)
 
+// numScaledSrc: the expressions the translator recovered from the source of the tree under test (generator
+// scaledexpr; Generated/ScaledExpr.lean, line "-- HARNESS"); nil = not recovered: the harness's own expressions
+var (
+	numScaledSrcOnce sync.Once
+	numScaledSrcV    *h.ScaledSrc
+)
+
+func numScaledSrc() *h.ScaledSrc {
+	numScaledSrcOnce.Do(func() {
+		root := os.Getenv("VERIF_ROOT")
+		if root == "" {
+			root = filepath.Join("..", "..")
+		}
+		b, err := os.ReadFile(filepath.Join(root, "lean", "Spine", "Generated", "ScaledExpr.lean"))
+		if err != nil {
+			return
+		}
+		for _, l := range strings.Split(string(b), "\n") {
+			if strings.HasPrefix(l, "-- HARNESS ") {
+				var src h.ScaledSrc
+				if json.Unmarshal([]byte(strings.TrimPrefix(l, "-- HARNESS ")), &src) == nil && src.Known && src.Product != nil {
+					numScaledSrcV = &src
+				}
+			}
+		}
+	})
+	return numScaledSrcV
+}
+
 func numImpl(v float64) (numObs, *model.ScaledNumberType) {
 	sn := model.NewScaledNumberType(v)
-	nd := numDecimals(v)
-	p := v * math.Pow(10, float64(nd))
+	// the intermediate columns `decimals` and `product`: the expressions RECOVERED FROM THE SOURCE, evaluated by the
+	// Go runtime (they tie the model's decimals count and product to the code's text, to strconv and to math)
+	var nd int
+	var p float64
+	if src := numScaledSrc(); src != nil {
+		nd = src.Decimals(v)
+		x, err := src.Product.Eval(h.FEnv{Param: v, Decimals: int64(nd)})
+		if err != nil {
+			panic("harness: the recovered product expression cannot be evaluated: " + err.Error())
+		}
+		p = x
+	} else {
+		nd = numDecimals(v)
+		p = v * math.Pow(10, float64(nd))
+	}
 	o := numObs{vb: math.Float64bits(v), nd: nd, pb: math.Float64bits(p), number: numNil, scale: -128}
 	if sn != nil && sn.Number != nil {
 		o.number = int64(*sn.Number)
@@ -206,6 +255,21 @@ func specClose(v float64, o numObs, g float64) (key, detail string) {
 // (number, scale) denotes exactly k*10^-d and GetValue returns the double nearest to it. (Clause (b)
 // is then met with error 0 against the decimal itself.)
 func specDecimal(k int64, d int, v float64, o numObs, g float64) (key, detail string) {
+	key, detail = specDecimalBelow(k, d, v, o, g)
+	if key != "" && key != "C19/scaled-malformed" && d >= 0 && d <= 4 && absI(k) >= uint64(numLeastFailing[d]) {
+		// from the least decimal that does not survive on (16 significant digits; Props/C19
+		// c19_scaled_exact_least_failures) a failure is the known limit of binary64, not a new defect
+		return "C19/decimal-from-least-failing-on", detail
+	}
+	return
+}
+
+// numLeastFailing[d]: the least k >= 2^50 for which k*10^-d does not survive the (repaired) conversion; kernel-checked
+// in Spine/Props/C19.lean (c19_scaled_exact_least_failures, c19_scaled_exact_needs_bound), re-established by the
+// directed search of every run
+var numLeastFailing = [5]int64{1<<53 + 1, 5629499534213123, 3518437208883202, 4398046511104021, 2748779069440004}
+
+func specDecimalBelow(k int64, d int, v float64, o numObs, g float64) (key, detail string) {
 	if o.number == numNil || o.scale < -30 || o.scale > 30 {
 		return "C19/scaled-malformed", fmt.Sprintf("%de-%d: number/scale missing or absurd (%d, %d)", k, d, o.number, o.scale)
 	}
@@ -1415,6 +1479,18 @@ func numRunOp(s *numStats, dr *h.Driver, op string) {
 		numOneDate(s, arg(1))
 	case "tod":
 		numOneTimeOfDay(s, arg(1))
+	case "ttext":
+		numOneTimeText(s, dr, loadTimeLayouts(), arg(1), arg(2), int(arg(3)))
+	case "tread":
+		if len(f) != 3 {
+			panic("bad op " + op)
+		}
+		numOneTimeRead(s, dr, loadTimeLayouts(), f[1], f[2])
+	case "tlib":
+		if len(f) != 5 {
+			panic("bad op " + op)
+		}
+		numOneTimeLib(s, dr, f[1], arg(2), arg(3), int(arg(4)))
 	case "period":
 		numOnePeriod(s, dr, arg(1))
 	case "pseq":
@@ -1432,6 +1508,7 @@ type numChunk struct {
 	d      int
 	k0, k1 int64
 	mirror bool // also sweep -k1..-k0, judged against the model's answers for k0..k1 through sign symmetry
+	fast   bool // the model's digest without the run-time assertion of IsRnd (a theorem: c19_rnd_sound)
 }
 
 // mirrored maps the observation of -v to what the model predicts for v (theorems newScaled_negate,
@@ -1452,6 +1529,9 @@ func (o numObs) mirrored() numObs {
 // down to single values and reports those.
 func numSweepChunk(s *numStats, dr *h.Driver, c numChunk, crossParse bool) {
 	line := fmt.Sprintf("srange %d %d %d 1", c.d, c.k0, c.k1)
+	if c.fast {
+		line = fmt.Sprintf("srangef %d %d %d 1", c.d, c.k0, c.k1)
+	}
 	ans := make(chan string, 1)
 	go func() { ans <- dr.AskWithin(line, numRangeTimeout) }()
 	hh, hm := uint64(numDigest0), uint64(numDigest0)
@@ -1486,7 +1566,7 @@ func numSweepChunk(s *numStats, dr *h.Driver, c numChunk, crossParse bool) {
 	if c.mirror && got == want && hm != hh {
 		// the negative half differs from the mirrored model: compare it directly
 		q := newNumStats()
-		numSweepChunk(q, dr, numChunk{c.d, -c.k1, -c.k0, false}, false)
+		numSweepChunk(q, dr, numChunk{c.d, -c.k1, -c.k0, false, false}, false)
 		if q.mismN == 0 {
 			s.mismatch(line, fmt.Sprintf("mirrored digest %d", hm), want, "negative half differs from the model's mirrored answers, but agrees with its direct answers: sign symmetry of the model broken")
 		}
@@ -1514,9 +1594,9 @@ func numSweepChunk(s *numStats, dr *h.Driver, c numChunk, crossParse bool) {
 	// bisect (evaluations of the halves are not counted again)
 	q := newNumStats()
 	mid := c.k0 + (c.k1-c.k0)/2
-	numSweepChunk(q, dr, numChunk{c.d, c.k0, mid, false}, false)
+	numSweepChunk(q, dr, numChunk{c.d, c.k0, mid, false, false}, false)
 	if q.mismN == 0 {
-		numSweepChunk(q, dr, numChunk{c.d, mid + 1, c.k1, false}, false)
+		numSweepChunk(q, dr, numChunk{c.d, mid + 1, c.k1, false, false}, false)
 	}
 	s.mismN += q.mismN
 	s.mism = append(s.mism, q.mism...)
@@ -1585,6 +1665,22 @@ func numParallel(args []string, n int, job func(s *numStats, dr *h.Driver, i int
 		}
 	}
 	return total
+}
+
+// numRunOpsParallel runs single ops (replay format) on the workers, in chunks of `chunk` ops, each worker with its
+// own driver; the statistics are merged in the order of the ops, so the result does not depend on the number of
+// workers. The ops are drawn (sequentially, from the seeded generator) before this is called.
+func numRunOpsParallel(args []string, ops []string, chunk int) *numStats {
+	n := (len(ops) + chunk - 1) / chunk
+	return numParallel(args, n, func(s *numStats, dr *h.Driver, i int) {
+		hi := (i + 1) * chunk
+		if hi > len(ops) {
+			hi = len(ops)
+		}
+		for _, op := range ops[i*chunk : hi] {
+			numRunOp(s, dr, op)
+		}
+	})
 }
 
 // numRandomBits draws a finite double "across magnitudes" (see the distribution table in the evidence).
@@ -1692,6 +1788,10 @@ func TestNumeric(t *testing.T) {
 		"dparse PT90M", "dparse P40000D", "dparse P4000D", "dparse PT1,55S", "dparse PT.5S", "dparse PT5.S", "dparse P1T1H", "dparse PT1HT1M", "dparse P1H", "dparse PT1D", "dparse P1", "dparse 1D", "dparse +P1D", "dparse P3277Y", "dparse P3276.7Y", "dparse P300Y",
 		"instant 0 0", "instant -62135596800 0", "instant 253402300799 0", "instant 1727352000 7200", "instant 951782400 -34200",
 		"instantns 0 500000000", "instantns 1727352000 499999999", "instantns -62135596800 1",
+		"ttext 0 0 0", "ttext -62167219200 0 0", "ttext 253402300799 0 0", "ttext 253402300799 500000000 0", "ttext 951782399 500000000 -34200", "ttext 1727352000 499999999 7200",
+		"tread dt 2024-02-29T12:00:00Z", "tread dt 2023-02-29T12:00:00Z", "tread dt 2024-09-26T7:04:05", "tread dt 2024-09-26T12:00:00.5", "tread dt 2024-09-26T12:00:00,25Z", "tread dt 2024-09-26T12:00:60Z", "tread dt 2024-09-26T24:00:00Z", "tread dt 2024-13-01T00:00:00", "tread dt 2024-09-26T12:00:00+02:00", "tread dt 10000-01-01T00:00:00Z",
+		"tread date 2001-10-26", "tread date 2001-10-26Z", "tread date 2001-10-26+07:00", "tread date 2001-10-26+02:00", "tread date 2001-02-30", "tread tod 13:20:00", "tread tod 13:20:00.125Z", "tread tod 13:20:00+07:00", "tread tod 13:20:00+05:30", "tread tod 13:20:00-11:00", "tread tod 3:20:00", "tread tod 13:20:00+25:00",
+		"tlib 2006-01-02T15:04:05.999999999Z07:00 951782400 123456789 -34200", "tlib 2006-01-02T15:04:05Z 253402300800 0 0", "tlib 20060102 0 0 0",
 		"date 0", "date -62135596800", "date 253402300799", "date 951782400", "tod 0", "tod 86399", "tod 43200",
 		"pseq direct SEa R90", "pseq outer SEa R90", "pseq direct A3600 R90", "pseq outer A3600 R90 E R30", "pseq direct R90 R90", "pseq direct SEr A60 S R5",
 		"reuse sn 29 2", "reuse sn -199998 1", "reuse dur 36001", "reuse dur -5", "reuse art 1727352000",
@@ -1712,8 +1812,15 @@ func TestNumeric(t *testing.T) {
 	phase("corpus")
 
 	// ---- (1) the exhaustive decimal grid, by digest, in parallel
+	// quick: every k up to 2*10^5, both signs through the model. thorough: both signs through the model up to 10^6;
+	// the positive half through the model and the negative half through the proved sign symmetry up to 5*10^6; from
+	// there to 2*10^7 one block of 10^4 consecutive k in seven (the conversion is a function of k's digits and of the
+	// binade of k*10^-d: nothing changes between 5*10^6 and 2*10^7 that the blocks, the random decimals up to 2^50 and
+	// the directed search would not meet). Beyond 10^6 the model's digest is computed without the run-time
+	// assertion of IsRnd (a theorem, asserted on all the rest).
 	K := int64(h.Scale(200000, 20000000))
-	direct := int64(h.Scale(200000, 2000000)) // both signs through the driver up to here, mirrored beyond
+	direct := int64(h.Scale(200000, 1000000)) // both signs through the driver up to here, mirrored beyond
+	denseK := int64(h.Scale(200000, 5000000)) // every k up to here, blocks beyond
 	const chunk = 10000
 	var chunks []numChunk
 	for dd := 0; dd <= 4; dd++ {
@@ -1722,14 +1829,21 @@ func TestNumeric(t *testing.T) {
 			if k1 > direct {
 				k1 = direct
 			}
-			chunks = append(chunks, numChunk{dd, k0, k1, false})
+			chunks = append(chunks, numChunk{dd, k0, k1, false, false})
 		}
+		blk := int64(0)
 		for k0 := direct + 1; k0 <= K; k0 += chunk {
 			k1 := k0 + chunk - 1
 			if k1 > K {
 				k1 = K
 			}
-			chunks = append(chunks, numChunk{dd, k0, k1, true})
+			if k0 > denseK {
+				blk++
+				if (blk+int64(dd))%7 != 0 {
+					continue
+				}
+			}
+			chunks = append(chunks, numChunk{dd, k0, k1, true, true})
 		}
 	}
 	quick := h.Tier() == "quick"
@@ -1748,7 +1862,7 @@ func TestNumeric(t *testing.T) {
 	}
 	gs.flush(r)
 	r.Traces += len(chunks)
-	r.Info["exhaustive_grid"] = fmt.Sprintf("all k*10^-d, 0<=d<=4, |k|<=%d: %d values, compared by digest in %d chunks; both signs computed by the model for |k|<=%d, beyond that the negative half is compared with the model's answers for the positive half through the sign-symmetry theorems of Spine.Num", K, gridN, len(chunks), direct)
+	r.Info["exhaustive_grid"] = fmt.Sprintf("all k*10^-d, 0<=d<=4, |k|<=%d, and one block of %d consecutive k in seven up to |k|<=%d: %d values, compared by digest in %d chunks; both signs computed by the model for |k|<=%d, beyond that the negative half is compared with the model's answers for the positive half through the sign-symmetry theorems of Spine.Num", denseK, chunk, K, gridN, len(chunks), direct)
 	r.Info["grid_spec_failures"] = gridFails
 	r.Info["grid_minimal_witnesses"] = gridWit
 	phase("grid")
@@ -1756,7 +1870,7 @@ func TestNumeric(t *testing.T) {
 	// ---- (2) random decimals with large k (below 2^50) and random doubles across magnitudes
 	rng := h.Rng(19)
 	nDec := h.Scale(60000, 2000000)
-	nFlt := h.Scale(200000, 10000000)
+	nFlt := h.Scale(200000, 4000000)
 	const batch = 500
 	type decJob struct {
 		d  int
@@ -1801,6 +1915,96 @@ func TestNumeric(t *testing.T) {
 	r.Info["random_decimal_spec_failures"] = decFails
 	phase("random-decimals")
 
+	// ---- (2b) directed search between the proved bound 2^50 and the least decimal that does not survive: the
+	//      conversion can only start to fail where k or v = k*10^-d crosses a power of two (the spacing of doubles
+	//      doubles there); within a segment the outcome is periodic in k with a period of at most 4*10^d. The first W
+	//      values of every segment below the least failing decimal must be exact and agree with the model; the
+	//      least failing decimal itself must fail (unless the member truncates, which keeps three of them).
+	{
+		wOf := func(dd int) int64 { // at least one full period (<= 4*10^d) of every segment
+			w := int64(5 * numPow10f[dd])
+			if w < 2000 {
+				w = 2000
+			}
+			return w * int64(h.Scale(1, 8))
+		}
+		type seg struct {
+			d      int
+			k0, k1 int64
+		}
+		var segs []seg
+		for dd := 0; dd <= 4; dd++ {
+			var cps []int64
+			p10 := int64(numPow10f[dd])
+			for i := uint(50); i <= 53; i++ {
+				cps = append(cps, int64(1)<<i)
+			}
+			for e := uint(30); e <= 53; e++ {
+				if c := new(big.Int).Mul(big.NewInt(p10), new(big.Int).Lsh(big.NewInt(1), e)); c.IsInt64() && c.Int64() > 1<<50 && c.Int64() < 1<<53 {
+					cps = append(cps, c.Int64())
+				}
+			}
+			sort.Slice(cps, func(i, j int) bool { return cps[i] < cps[j] })
+			for _, c := range cps {
+				if c >= numLeastFailing[dd] || c >= 1<<53 {
+					continue
+				}
+				k1 := c + wOf(dd) - 1
+				if k1 >= numLeastFailing[dd] {
+					k1 = numLeastFailing[dd] - 1
+				}
+				for k0 := c; k0 <= k1; k0 += batch {
+					e := k0 + batch - 1
+					if e > k1 {
+						e = k1
+					}
+					segs = append(segs, seg{dd, k0, e})
+				}
+				// and the values just below the critical point
+				segs = append(segs, seg{dd, c - 64, c - 1})
+			}
+		}
+		ss := numParallel(args, len(segs), func(s *numStats, dr *h.Driver, i int) {
+			g := segs[i]
+			var sb strings.Builder
+			fmt.Fprintf(&sb, "S %d", g.d)
+			for k := g.k0; k <= g.k1; k++ {
+				fmt.Fprintf(&sb, " %d", k)
+			}
+			ans := strings.Split(dr.AskWithin(sb.String(), numRangeTimeout), ";")
+			if int64(len(ans)) != g.k1-g.k0+1 {
+				panic("drv_num: batch answer of wrong length")
+			}
+			for k := g.k0; k <= g.k1; k++ {
+				if p := numParse(k, g.d); p != numDec(k, g.d) {
+					panic(fmt.Sprintf("harness: %de-%d: quotient and ParseFloat differ", k, g.d))
+				}
+				numOneDecimal(s, k, g.d, ans[k-g.k0])
+				numOneDecimal(s, -k, g.d, "")
+			}
+		})
+		nDir := 0
+		for _, v := range ss.evals {
+			nDir += v
+		}
+		ss.flush(r)
+		r.Traces += len(segs)
+		ws := newNumStats()
+		lost := 0
+		for dd := 1; dd <= 4; dd++ {
+			numRunOp(ws, d, fmt.Sprintf("scaled %d %d", numLeastFailing[dd], dd))
+			numRunOp(ws, d, fmt.Sprintf("scaled %d %d", -numLeastFailing[dd], dd))
+		}
+		numRunOp(ws, d, "scaled 9007199254740992 0")
+		lost = ws.fails["C19/decimal-from-least-failing-on"]
+		ws.flush(r)
+		if !cfgT && lost != 8 {
+			r.Mismatch([]string{fmt.Sprintf("scaled %d 2", numLeastFailing[2])}, fmt.Sprintf("%d of the 8 least failing decimals (both signs) are lost", lost), "all 8 are lost by the member that rounds", "the least failing decimals of Props/C19 c19_scaled_exact_least_failures on the real code")
+		}
+		r.Info["directed_search_above_2^50"] = fmt.Sprintf("%d decimals (both signs): the first %d (d = 4; at least 5*10^d, more than one period) values of every segment of k in [2^50, least failing decimal) between powers of two of k and of v = k*10^-d, and 64 values below each boundary, compared with the model and judged by clause (a); least failing decimals %v: %d of 8 (both signs, d = 1..4) lost on this tree", nDir, wOf(4), numLeastFailing, lost)
+		phase("directed-search")
+	}
+
 	var fltJobs [][]uint64
 	for i := 0; i < nFlt; i += batch {
 		var bs []uint64
@@ -1835,14 +2039,15 @@ func TestNumeric(t *testing.T) {
 	r.Floor("random doubles in the property's range that are not integers", fs.inputs["float:in-range-non-integer"], nFlt, 0.5)
 
 	// GetValue on arbitrary pairs (what a peer may send), |scale| <= 4
-	vs := newNumStats()
+	var gvOps []string
 	for i := 0; i < h.Scale(20000, 200000); i++ {
 		n := rng.Int63n(1 << uint(1+rng.Intn(62)))
 		if rng.Intn(2) == 0 {
 			n = -n
 		}
-		numRunOp(vs, d, fmt.Sprintf("getval %d %d", n, rng.Intn(9)-4))
+		gvOps = append(gvOps, fmt.Sprintf("getval %d %d", n, rng.Intn(9)-4))
 	}
+	vs := numRunOpsParallel(args, gvOps, 500)
 	vs.flush(r)
 	phase("random-doubles")
 
@@ -1850,7 +2055,7 @@ func TestNumeric(t *testing.T) {
 	const day = int64(864000) // in units of 100 ms
 	type durJob struct{ z0, z1, step int64 }
 	var durJobs []durJob
-	dense := int64(h.Scale(2000000, 20000000)) // every multiple up to 55 h / 23 days
+	dense := int64(h.Scale(2000000, 10000000)) // every multiple up to 55 h / 11.5 days
 	for z := int64(0); z < dense; z += 200000 {
 		durJobs = append(durJobs, durJob{z, z + 199999, 1})
 	}
@@ -1925,11 +2130,10 @@ func TestNumeric(t *testing.T) {
 	us.flush(r)
 	r.Traces += len(durJobs)
 	// boundaries, single values with field comparison, geometric part to 30 years
-	bs := newNumStats()
+	var bsOps []string
 	for _, c := range []int64{600, 36000, 3220 * 36000, 32204 * 3600, 32205 * 3600, 3276 * 36000, 3277 * 36000, 400 * day, 3276 * day, 3277 * day} {
 		for dz := int64(-3); dz <= 3; dz++ {
-			numOneDur(bs, d, c+dz)
-			numOneDur(bs, d, -(c + dz))
+			bsOps = append(bsOps, fmt.Sprintf("dur %d", c+dz), fmt.Sprintf("dur %d", -(c+dz)))
 		}
 	}
 	for i := 0; i < h.Scale(20000, 200000); i++ {
@@ -1937,29 +2141,28 @@ func TestNumeric(t *testing.T) {
 		if rng.Intn(2) == 0 {
 			z = -z
 		}
-		numOneDur(bs, d, z)
+		bsOps = append(bsOps, fmt.Sprintf("dur %d", z))
 	}
 	for z := float64(400 * day); z < float64(30*366*day); z *= 1.0 + 1.0/float64(h.Scale(400, 4000)) {
 		zi := int64(z)
-		numOneDur(bs, d, zi)
-		numOneDur(bs, d, -zi)
-		numOneDur(bs, d, zi/day*day) // whole days
-		numOneDur(bs, d, zi/600*600) // whole minutes
+		bsOps = append(bsOps, fmt.Sprintf("dur %d", zi), fmt.Sprintf("dur %d", -zi),
+			fmt.Sprintf("dur %d", zi/day*day), // whole days
+			fmt.Sprintf("dur %d", zi/600*600)) // whole minutes
 	}
 	for i := 0; i < h.Scale(5000, 50000); i++ {
 		ns := rng.Int63n(400 * day * int64(hundredMs))
 		if rng.Intn(2) == 0 {
 			ns = -ns
 		}
-		numOneDurNs(bs, d, ns)
+		bsOps = append(bsOps, fmt.Sprintf("durns %d", ns))
 	}
+	bs := numRunOpsParallel(args, bsOps, 500)
 	// the textual level: texts written (boundaries, random, geometric to 292 years), texts a peer may send
 	// (the exhaustive grid of designator subsets, random well-formed and damaged texts)
-	ts := newNumStats()
+	var tsOps []string
 	for _, c := range []int64{0, 600, 36000, 7 * day, 70 * day, 3220 * 36000, 32204 * 3600, 32205 * 3600, 3276 * 36000, 3277 * 36000, 400 * day, 3276 * day, 3277 * day, 3283 * day} {
 		for dz := int64(-3); dz <= 3; dz++ {
-			numOneDurText(ts, d, (c+dz)*int64(hundredMs))
-			numOneDurText(ts, d, -(c+dz)*int64(hundredMs))
+			tsOps = append(tsOps, fmt.Sprintf("dtext %d", (c+dz)*int64(hundredMs)), fmt.Sprintf("dtext %d", -(c+dz)*int64(hundredMs)))
 		}
 	}
 	for i := 0; i < h.Scale(20000, 200000); i++ {
@@ -1977,16 +2180,28 @@ func TestNumeric(t *testing.T) {
 		if rng.Intn(2) == 0 {
 			ns = -ns
 		}
-		numOneDurText(ts, d, ns)
+		tsOps = append(tsOps, fmt.Sprintf("dtext %d", ns))
 	}
 	grid := numDurTextGrid()
+	parseOp := func(tx string) {
+		if tx == "" || strings.ContainsAny(tx, " \t\r\n") {
+			return
+		}
+		for i := 0; i < len(tx); i++ {
+			if tx[i] >= 0x80 {
+				return
+			}
+		}
+		tsOps = append(tsOps, "dparse "+tx)
+	}
 	for _, tx := range grid {
-		numOneDurParse(ts, d, tx)
+		parseOp(tx)
 	}
 	nTxt := h.Scale(30000, 300000)
 	for i := 0; i < nTxt; i++ {
-		numOneDurParse(ts, d, numRandomDurText(rng))
+		parseOp(numRandomDurText(rng))
 	}
+	ts := numRunOpsParallel(args, tsOps, 500)
 	acc, ref := ts.evals["durparse:accepted"], ts.evals["durparse:refused"]
 	ts.flush(r)
 	r.Floor("duration texts the library accepts", acc, acc+ref, 0.4)
@@ -2004,7 +2219,7 @@ func TestNumeric(t *testing.T) {
 	phase("durations")
 
 	// ---- (4) instants across years 1-9999, dates, times of day (monitor only)
-	is := newNumStats()
+	var isOps []string
 	const minSec, maxSec = int64(-62135596800), int64(253402300799)
 	for i := 0; i < h.Scale(60000, 600000); i++ {
 		sec := minSec + rng.Int63n(maxSec-minSec+1)
@@ -2015,21 +2230,21 @@ func TestNumeric(t *testing.T) {
 				off += 1800
 			}
 		}
-		numOneInstant(is, sec, off)
+		isOps = append(isOps, fmt.Sprintf("instant %d %d", sec, off))
 		if i%4 == 0 {
-			numOneDate(is, sec)
-			numOneTimeOfDay(is, sec)
+			isOps = append(isOps, fmt.Sprintf("date %d", sec), fmt.Sprintf("tod %d", sec))
 		}
 		if i%8 == 0 && sec < maxSec-1 {
-			numOneInstantNs(is, sec, rng.Int63n(1000000000))
+			isOps = append(isOps, fmt.Sprintf("instantns %d %d", sec, rng.Int63n(1000000000)))
 		}
 	}
 	// every second around the edges of the range, leap days, year boundaries
 	for _, c := range []int64{minSec, maxSec - 7200, 0, 951782400 - 3600, 4107542400 - 3600, 946684800 - 3600, -2208988800 - 3600} {
 		for ds := int64(0); ds < 7200; ds += 7 {
-			numOneInstant(is, c+ds, 0)
+			isOps = append(isOps, fmt.Sprintf("instant %d 0", c+ds))
 		}
 	}
+	is := numRunOpsParallel(args, isOps, 1000)
 	is.flush(r)
 	// observation outside the statement of C19 (information only): the layouts "2006-01-02+07:00" and
 	// "15:04:05+07:00" are not zone layouts of package time ("+07:00" only matches itself)
@@ -2040,6 +2255,10 @@ func TestNumeric(t *testing.T) {
 		r.Info["observation_zone_layouts"] = fmt.Sprintf("DateType 2001-10-26+02:00 -> err %v; TimeType 13:20:00+07:00 -> zone offset %d s (err %v): the text +07:00 in a layout is a literal, not a numeric zone", e1, off, e2)
 	}
 	phase("instants")
+
+	// ---- (4b) instants at the level of the text (Spine.TimeText)
+	numTimeTextPhase(r, d, args, rng)
+	phase("instant-texts")
 
 	// ---- (5) time periods with a relative end time, incl. JSON round trip
 	ps := newNumStats()
@@ -2094,6 +2313,14 @@ func TestNumeric(t *testing.T) {
 	ps.flush(r)
 	phase("periods")
 
+	if src := numScaledSrc(); src != nil {
+		r.Info["scaled_expressions"] = fmt.Sprintf("decimals and product columns evaluated from the expressions recovered from the source: FormatFloat(value, %q, %d, %d) capped at %d; math.%s(%s)", rune(src.FmtVerb), src.FmtPrec, src.FmtBits, src.Cap, src.RoundFn, src.Product.Lean())
+		if (src.RoundFn == "Trunc") != cfgT || (src.GetNeg != nil && (src.GetNeg.Op != "div") != cfgI) {
+			r.Mismatch([]string{"scaled 29 2", "getval -199998 -1"}, fmt.Sprintf("probed member truncScaled=%v inexactPower=%v", cfgT, cfgI), fmt.Sprintf("source: math.%s, GetValue for a negative scale: %s", src.RoundFn, src.GetNeg.Lean()), "the member probed on the compiled code and the member the recovered source denotes differ")
+		}
+	} else {
+		r.Info["scaled_expressions"] = "NOT recovered from the source of this tree: decimals and product columns recomputed with the harness's own expressions"
+	}
 	r.Info["workers"] = numWorkers()
 	r.Info["member"] = map[string]bool{"truncScaled": cfgT, "inexactPower": cfgI}
 	if r.MismatchN == 0 {
